@@ -189,6 +189,32 @@ pub fn c06(known: &Known, clients: &[C], keys: &[&str]) -> CoreScenario {
     CoreScenario::new("C06", setup, ops, probe, known.open_for("C06"))
 }
 
+/// C07, the lock part: sessions that hold, wait for, have released and have re-requested locks on two
+/// keys end in every order; the per-client lock bookkeeping then contains stale, duplicate and queued
+/// entries in every arrangement before the locks that are really held.
+pub fn c07_locks(known: &Known) -> CoreScenario {
+    let mut ops = vec![];
+    for c in [A, B] {
+        for k in ["l", "m"] {
+            ops.push(Op::Lock(c, s(k)));
+            ops.push(Op::AcquireLock(c, s(k)));
+            ops.push(Op::ReleaseLock(c, s(k)));
+        }
+        ops.push(Op::Disconnect(c));
+        ops.push(Op::Connect(c));
+    }
+    ops.push(Op::Set(A, sys_key(A, "graveGoods"), json!(["g/#"])));
+    ops.push(Op::Set(B, s("g/x"), json!(1)));
+    let setup = vec![Op::Connect(A), Op::Connect(B)];
+    let probe = Probe {
+        keys: vec![s("g/x"), sys_key(A, "graveGoods")],
+        patterns: vec![],
+        parents: vec![None],
+        parent_patterns: vec![],
+    };
+    CoreScenario::new("C07", setup, ops, probe, known.open_for("C07"))
+}
+
 fn sys_key(c: C, leaf: &str) -> String {
     format!("$SYS/clients/{}/{leaf}", cid(c))
 }
